@@ -24,30 +24,33 @@
 (***************************************************************************)
 EXTENDS AlertNode, TraceCommon
 
-VARIABLES l, clk, drift, sent    \* sent: level of the last event delivered for the ID (what the topic remembers)
-tvars == <<vars, l, clk, drift, sent>>
+VARIABLES l, clk, drift,
+          sent,     \* event ID -> level of the last event delivered for it (what the topic remembers)
+          multi,    \* the trace is one GROUP whose points render several alert IDs (setup.multi)
+          idm       \* multi: event ID -> [rf, clk], the documented machine run per alert ID
+tvars == <<vars, l, clk, drift, sent, multi, idm>>
 
 DefaultCfg == MkCfg(<<FALSE, FALSE, TRUE>>, <<FALSE, FALSE, FALSE>>, FALSE, 0, FALSE, FALSE, FALSE, 0, 0, 2, FALSE)
 
 TrInit ==
     /\ l = 1 /\ HWInit
     /\ cfg = DefaultCfg /\ im = ImplInit(DefaultCfg) /\ rf = RefInit(DefaultCfg)
-    /\ out = None /\ chk = ChkInit /\ clk = 0 /\ drift = FALSE /\ sent = 0
-    /\ aq = 0 /\ dl = NoDl
+    /\ out = None /\ chk = ChkInit /\ clk = 0 /\ drift = FALSE /\ sent = <<>>
+    /\ aq = 0 /\ dl = NoDl /\ multi = FALSE /\ idm = <<>>
 
 Ln == Trace[l]
 IsEv(e) == l <= Len(Trace) /\ Ln.ev = e /\ l' = l + 1
 
 CfgOf(r) ==
     [MkCfg(r.has, r.rst, r.sco, r.scod, r.norec, r.all, r.flap, r.flo, r.fhi, r.H, r.batch)
-        EXCEPT !.rk = Get(r, "rk", <<0, 0, 0>>), !.inline = Get(r, "inline", FALSE)]
+        EXCEPT !.rk = Get(r, "rk", <<0, 0, 0>>), !.inline = Get(r, "inline", FALSE), !.errs = Get(r, "errs", FALSE)]
 
 TrReset ==
     /\ IsEv("Reset")
     /\ cfg' = CfgOf(Ln.setup)
     /\ im' = ImplInit(cfg') /\ rf' = RefInit(cfg')
-    /\ out' = None /\ chk' = ChkInit /\ clk' = 0 /\ drift' = FALSE /\ sent' = 0
-    /\ aq' = 0 /\ dl' = NoDl
+    /\ out' = None /\ chk' = ChkInit /\ clk' = 0 /\ drift' = FALSE /\ sent' = <<>>
+    /\ aq' = 0 /\ dl' = NoDl /\ multi' = Get(Ln.setup, "multi", FALSE) /\ idm' = <<>>
     /\ ConfigOK(cfg')
 
 (* The forwarded data is a second view of the same event: forwarded iff an   *)
@@ -57,7 +60,9 @@ TrReset ==
 (* the default message "<id> is <LEVEL>" and recoverable = ~noRecoveries.    *)
 (* An inline handler never gets an event the named topic's handlers do not   *)
 (* get (the reverse happens when the inline handlers' queue is full).        *)
-WellFormed(ln, n) ==
+(* ln.id is the ID rendered from THIS point (its measurement and tags): the   *)
+(* label of an event is the ID of the point that triggered it.               *)
+WellFormed(ln, n, sv) ==
     /\ Len(ln.o) <= 1
     /\ (Get(ln, "an", 0) = 1 => ln.o # <<>>)
     /\ ln.nf = Len(ln.o)
@@ -67,7 +72,7 @@ WellFormed(ln, n) ==
        ELSE /\ Len(ln.f) = n
             /\ \A i \in DOMAIN ln.f :
                   ln.f[i][1] = ln.o[1][1] /\ ln.f[i][2] = ln.o[1][3] /\ ln.f[i][3] = ln.o[1][1]
-            /\ ln.o[1][5] = sent
+            /\ ln.o[1][5] = sv
             /\ ln.o[1][6] = 1
             /\ ln.o[1][7] = (IF cfg.norec THEN 0 ELSE 1)
 
@@ -79,18 +84,34 @@ TrStep ==
            THEN \* an empty batch is ignored entirely
                 \* (ages are relative to clk: the clock stays where the last processed batch left it)
                 /\ ln.o = <<>> /\ ln.nf = 0
-                /\ UNCHANGED <<vars, drift, clk, sent>>
-           ELSE LET pts == [i \in 1..n |-> [c |-> ln.pts[i].c, r |-> ln.pts[i].r, off |-> ln.pts[i].t - clk]]
+                /\ UNCHANGED <<vars, drift, clk, sent, multi, idm>>
+           ELSE LET F3  == <<FALSE, FALSE, FALSE>>
+                    pts == [i \in 1..n |-> [c |-> ln.pts[i].c, r |-> ln.pts[i].r,
+                                            ce |-> Get(ln.pts[i], "ce", F3), re |-> Get(ln.pts[i], "re", F3),
+                                            off |-> ln.pts[i].t - clk]]
                     tmx == ln.tmax - clk
                     obs == IF ln.o = <<>> THEN None ELSE <<ln.o[1][1], ln.tmax - ln.o[1][2], ln.o[1][3]>>
                     j   == RefJudge(cfg, rf, pts, tmx, obs)
                     i   == IF cfg.batch THEN ImplBatch(cfg, im, pts, tmx) ELSE ImplStream(cfg, im, pts[1])
-                    wf  == WellFormed(ln, n)
+                    pid == ln.id
+                    wf  == WellFormed(ln, n, IF pid \in DOMAIN sent THEN sent[pid] ELSE 0)
+                    \* multi: the documented machine of THIS alert ID (its own points only)
+                    ist == IF pid \in DOMAIN idm THEN idm[pid] ELSE [rf |-> RefInit(cfg), clk |-> 0]
+                    jI  == RefJudge(cfg, ist.rf, [k \in 1..n |-> [pts[k] EXCEPT !.off = ln.pts[k].t - ist.clk]],
+                                    ln.tmax - ist.clk, obs)
+                    okI == jI.chk.level /\ jI.chk.emit /\ jI.chk.carries
                     \* the listed deviation, guarded by exactly its input class (needs the
                     \* code-shaped flapping flag, so only while Impl still explains the trace)
                     kf  == ~drift /\ StreamFlappingRecoveryWithheld(cfg, i.st, obs, j.recovery)
-                    ok  == wf /\ j.chk.level /\ j.chk.carries
+                    okG == j.chk.level /\ j.chk.carries
                            /\ (j.chk.emit \/ (kf /\ PrintT(<<"KF-HIT", "stream-flapping-recovery-withheld">>)))
+                    \* several alert IDs rendered within one group: accepted if every ID follows the
+                    \* documented machine on its own points; the listed deviation is the code's ONE
+                    \* state machine per group shared by those IDs (labels and previous levels per ID
+                    \* are checked either way)
+                    ok  == wf /\ (IF multi
+                                  THEN okI \/ (okG /\ PrintT(<<"KF-HIT", "several-ids-per-group-share-state">>))
+                                  ELSE okG)
                 IN  /\ \/ ok
                        \/ ~ok /\ PrintT(<<"C01-REJECT", l, "wellformed", wf, j.chk, "ref-level", j.st.lvl>>) /\ FALSE
                     /\ rf' = j.st /\ chk' = [j.chk EXCEPT !.kf = kf] /\ out' = obs /\ im' = i.st
@@ -99,7 +120,12 @@ TrStep ==
                     /\ drift' = (drift \/ i.out # obs)
                     /\ (~drift /\ i.out # obs) => PrintT(<<"IMPL-DRIFT", l, "impl", i.out, "observed", obs>>)
                     /\ clk' = ln.tmax
-                    /\ sent' = (IF obs = None THEN sent ELSE obs[1])
+                    /\ sent' = (IF obs = None THEN sent
+                                ELSE [x \in DOMAIN sent \cup {pid} |-> IF x = pid THEN obs[1] ELSE sent[x]])
+                    /\ multi' = multi
+                    /\ idm' = (IF multi
+                               THEN [x \in DOMAIN idm \cup {pid} |-> IF x = pid THEN [rf |-> jI.st, clk |-> ln.tmax] ELSE idm[x]]
+                               ELSE idm)
                     /\ UNCHANGED cfg
 
 (* The task was stopped and started again (same topic): Ref continues, Impl   *)
@@ -108,7 +134,7 @@ TrRestart ==
     /\ IsEv("Restart")
     /\ CanRestart(cfg)
     /\ im' = ImplRestore(cfg, im)
-    /\ UNCHANGED <<cfg, rf, out, chk, clk, drift, sent, aq, dl>>
+    /\ UNCHANGED <<cfg, rf, out, chk, clk, drift, sent, aq, dl, multi, idm>>
 
 TrNext == TrReset \/ TrStep \/ TrRestart
 TrSpec == TrInit /\ [][TrNext]_tvars
